@@ -22,7 +22,8 @@ EXPLANATION = (
     "hence a zero gradient by the mask rule (re-checked here). Not decided: non-negativity, zero at independence, log K, unit bounds.")
 ASSUMPTIONS = ["epsilon is validated in (0,1), so clipped predictions and their means are strictly positive",
                "numpy shape semantics of gcverif/e3_numpy.py"]
-ADOPT = [("C02", ["C02-f"], "zero distances (identical or empty clusters) must not produce inf/NaN gradients"),
+ADOPT = [("C01", ["C01-e"], "non-negativity, the unit bounds of total variation and Hellinger and log K for a balanced hard partition are properties of the documented distances: they hold if the score is that distance"),
+         ("C02", ["C02-f"], "zero distances (identical or empty clusters) must not produce inf/NaN gradients"),
          ("C17", ["C17-c"], "finite on the closed simplex")]
 
 
@@ -70,6 +71,9 @@ def run(pm, ctx):
                               f"a function of its arguments", line=stores[0].lineno, site=site)
             else:
                 ctx.unrecognised("C13-d", site, f"`{norm_src(stores[0])}` is written during the evaluation")
+    ctx.rule("C13-f", "the optimal-transport solver is run to optimality: an iteration budget below POT's default makes it stop on an order-dependent "
+             "feasible basis for large n, so score and gradient are no longer permuted with the samples", floor=2)
+    solver_budget(pm, ctx)
     ctx.rule("C13-e", "a score vanishes (chi-square family: equals its offset 1/2) whenever the predictions do not depend on the sample: the score "
              "term with y[n,k] replaced by c[k] (sum_k c[k] = 1) normalises to that constant", floor=12)
     from ..e8_gemini import check_independence
@@ -122,6 +126,61 @@ def run(pm, ctx):
         clip_rules(ctx, unit, qn, f)
         mask_rules(ctx, unit, qn, f)
 
+
+
+def _pot_default(name="emd2", kw="numItermax"):
+    """default of a keyword of ot.<name>, read from the installed POT sources (parsed, not imported)"""
+    import glob
+    import os
+    for fn in glob.glob("/venv/lib/python3*/site-packages/ot/lp/*.py"):
+        try:
+            t = ast.parse(open(fn).read())
+        except (OSError, SyntaxError):
+            continue
+        for n in ast.walk(t):
+            if isinstance(n, ast.FunctionDef) and n.name == name:
+                args = n.args.args
+                defs = n.args.defaults
+                for a, d in zip(args[len(args) - len(defs):], defs):
+                    if a.arg == kw and isinstance(d, ast.Constant):
+                        return d.value
+                for a, d in zip(n.args.kwonlyargs, n.args.kw_defaults):
+                    if a.arg == kw and isinstance(d, ast.Constant):
+                        return d.value
+    return None
+
+
+def solver_budget(pm, ctx):
+    default = _pot_default()
+    n_calls = 0
+    for u in pm.units.values():
+        for c in ast.walk(u.tree):
+            if isinstance(c, ast.Call) and (call_name(c) or "") in ("ot.emd2", "ot.emd", "emd2", "emd"):
+                n_calls += 1
+                f = next((p_ for p_ in _parents_of(c) if isinstance(p_, ast.FunctionDef)), None)
+                site = f"{u.relpath}:{f.name if f else '?'}: {norm_src(c)[:50]}"
+                it = next((k.value for k in c.keywords if k.arg == "numItermax"), None)
+                if it is None:
+                    ctx.ok("C13-f", site, f"default budget ({default})")
+                elif default is None:
+                    ctx.unrecognised("C13-f", site, "POT's default numItermax could not be read from the installed sources")
+                elif isinstance(it, ast.Constant) and isinstance(it.value, (int, float)):
+                    if it.value >= default:
+                        ctx.ok("C13-f", site, f"numItermax={it.value} >= {default}")
+                    else:
+                        ctx.violation("C13-f", u.relpath, f.name if f else "?", norm_src(c)[:140], f"numItermax={it.value} is below POT's default {default}: the network simplex "
+                                      f"stops early on problems with about a thousand samples and returns a feasible, order-dependent plan", line=c.lineno, site=site)
+                else:
+                    ctx.unrecognised("C13-f", site, f"numItermax={norm_src(it)}")
+    if n_calls == 0:
+        raise AnalysisError("anchor vanished: calls of ot.emd2")
+
+
+def _parents_of(n):
+    n = getattr(n, "_parent", None)
+    while n is not None:
+        yield n
+        n = getattr(n, "_parent", None)
 
 
 def _floored(e):
@@ -318,4 +377,5 @@ def controls(pm, tier):
     mut(F, "        hellinger_gemini = 1 - np.mean(estimates, axis=0)", "        hellinger_gemini = 2 - np.mean(estimates, axis=0)", "C13-e", "Hellinger offset")
     mut(G, "        N, K = y_pred.shape\n", "        N, K = y_pred.shape\n        if affinity is not getattr(self, '_last', None):\n            self._last, self._cost = affinity, np.ascontiguousarray(affinity)\n        affinity = self._cost\n",
         "C13-d", "cost matrix memoised on object identity")
+    mut(G, "ot.emd2(wy[k1], wy[k2], affinity, log=True)", "ot.emd2(wy[k1], wy[k2], affinity, log=True, numItermax=10000)", "C13-f", "solver budget a tenth of the default")
     return out
